@@ -8,6 +8,9 @@ otherwise a 2^-64-accurate rational approximation and the line is marked
 `approx` (such lines are only compared with a tolerance by the check).
 -/
 import SharkVerif.Model.LinSolve
+import SharkVerif.Model.SolveExpr
+import SharkVerif.Model.LinSolveBlocked
+import SharkVerif.Gen.SolveRules
 open SharkVerif.LinSolve
 
 def parseNum (s : String) : Option Rat :=
@@ -113,9 +116,11 @@ def opTrsm : P String := do
   done
   let B := if left then matFn m Bv else matFn n Bv
   if triSingular t n A && m > 0 then pure "exc invalid_argument" else
-  let X := trsmArr t left n m A B
-  if left then pure ("ok" ++ showVals (flat n m fun i k => mget X k i))
-  else pure ("ok" ++ showVals (flat m n fun k i => mget X k i))
+  -- the blocked recursion as the C++ runs it (`trsm_recursive`, Block_Size 32; equal to the unblocked
+  -- `trsmArr` by `trsmBlocked_eq_trsm`); entry `(i,k)`: system index `i`, right-hand side `k`
+  let X := trsmBlockedArr 32 t left n m A B
+  if left then pure ("ok" ++ showVals (flat n m fun i k => mget X i k))
+  else pure ("ok" ++ showVals (flat m n fun k i => mget X i k))
 
 /-- did every square root come out exact? (`L j j ^ 2 = pivot j`) -/
 def rootsExact (n : Nat) (A : Mat) (L : Arr2) : Bool :=
@@ -135,11 +140,14 @@ def opPotrf : P String := do
   let strict := false
   let small := n ≤ 5
   let L := cholCols (rsqrt small) n A
-  let info := infoOf strict n A L
+  -- return value and factor from the blocked recursion as the C++ runs it (`potrf_recursive`, block size 32;
+  -- equal to the unblocked loop by `potrfBlocked_eq`)
+  let pb := potrfBlocked 32 32 (rsqrt small) n A
+  let info := if strict then infoOf strict n A L else pb.2
   if info != 0 then pure s!"ok info={info}" else
   let exact := rootsExact n A L
   if !exact && !small then pure "skip" else
-  let out := potrfOut n A L
+  let out := pb.1
   let ap := if exact then "" else " approx"
   let f : Nat → Nat → Rat := if upper then fun i j => mget out j i else fun i j => mget out i j
   pure (s!"ok{ap} info=0" ++ showVals (flat n n f))
@@ -228,6 +236,155 @@ def solveCore (tag : String) (left isVec : Bool) (n m : Nat) (A : Mat) (Bv : Arr
       finish (!(exact && exact2)) fun k => semiApplyArr n (s, C) (rhs k)
   | _ => .skip
 
+
+/-! ## conjugate gradient through the expression layer
+
+The harness writes the solve in many forms; what each form computes once the rewrites of `solve.hpp` have been
+applied is obtained here by building the expression, rewriting it with the rule set REGENERATED from `solve.hpp`
+(`Gen/SolveRules.lean`) and evaluating the result with the modelled conjugate-gradient kernels (vector overload
+for `matrix_vector_solve`, matrix overload for `matrix_matrix_solve` / the evaluated `matrix_inverse`). -/
+
+structure Val where
+  rows : Nat
+  cols : Nat
+  a : Arr2
+
+def Val.get (v : Val) (i j : Nat) : Rat := mget v.a i j
+def Val.ofFn (r c : Nat) (f : Nat → Nat → Rat) : Val := ⟨r, c, matOf r c f⟩
+
+structure Env where
+  n : Nat
+  mats : Nat → Option Val
+  vecs : Nat → Option Val
+
+/-- run the conjugate-gradient model; `none` = not converged within the cap although no iteration limit was given -/
+def runCG (vecKernel : Bool) (eps : Rat) (maxit : Nat) (n : Nat) (A : Mat) (b : Vec) : Option (Array Rat) :=
+  let steps := if maxit = 0 then n + 2 else maxit
+  let s := if vecKernel then cgVec eps steps n A b else cgCol eps steps n A b
+  if maxit = 0 && !s.done then none else some (vecOf n s.x)
+
+partial def evalE (env : Env) : E → Option Val
+  | .mat i => env.mats i
+  | .vec i => env.vecs i
+  | .unit i => some (Val.ofFn env.n 1 fun k _ => if k = i then 1 else 0)
+  | .trans e => do let v ← evalE env e; pure (Val.ofFn v.cols v.rows fun i j => v.get j i)
+  | .row e i => do let v ← evalE env e; pure (Val.ofFn v.cols 1 fun k _ => v.get i k)
+  | .mvprod M v => do
+    let m ← evalE env M; let x ← evalE env v
+    pure (Val.ofFn m.rows 1 fun i _ => sum m.cols fun k => m.get i k * x.get k 0)
+  | .mmprod X Y => do
+    let x ← evalE env X; let y ← evalE env Y
+    pure (Val.ofFn x.rows y.cols fun i j => sum x.cols fun k => x.get i k * y.get k j)
+  | .vsolve A b t _ => do
+    let a ← evalE env A; let v ← evalE env b
+    match t with
+    | .cg eps maxit =>
+      let x ← runCG true eps maxit env.n (fun i j => a.get i j) (fun i => v.get i 0)
+      pure (Val.ofFn env.n 1 fun i _ => vget x i)
+    | _ => none
+  | .msolve A B t left => do
+    let a ← evalE env A; let bv ← evalE env B
+    match t with
+    | .cg eps maxit =>
+      -- left: every column of B; right: `transB = trans(B)`, every column of that, i.e. every row of B
+      let cnt := if left then bv.cols else bv.rows
+      let mut sols : Arr2 := #[]
+      for k in [0:cnt] do
+        let x ← runCG false eps maxit env.n (fun i j => a.get i j) (fun i => if left then bv.get i k else bv.get k i)
+        sols := sols.push x
+      pure (if left then Val.ofFn env.n cnt fun i k => mget sols k i else Val.ofFn cnt env.n fun k i => mget sols k i)
+    | _ => none
+  | .inv A t => do
+    let a ← evalE env A
+    match t with
+    | .cg eps maxit =>
+      let mut sols : Arr2 := #[]
+      for k in [0:env.n] do
+        let x ← runCG false eps maxit env.n (fun i j => a.get i j) (fun i => if i = k then 1 else 0)
+        sols := sols.push x
+      pure (Val.ofFn env.n env.n fun i k => mget sols k i)
+    | _ => none
+
+/-- the tag of the transposed system with the same state (the harness helper `transposedTag`) -/
+def transposedTagH : Tag → Tag
+  | .tri x => .tri x.transposed
+  | t => t
+
+def cgSolve (t : Tag) (left isVec : Bool) (form : Char) (n m : Nat) (A : Mat) (Bv : Array Rat) : Option (List Rat) := do
+  let R := SharkVerif.Gen.SolveRules.rules
+  let rows := if isVec then n else if left then n else m
+  let cols := if isVec then 1 else if left then m else n
+  let Bm : Val := Val.ofFn rows cols fun i j => Bv.getD (i * cols + j) 0
+  let Am : Val := Val.ofFn n n A
+  let unitVal (sz k : Nat) : Val := Val.ofFn sz 1 fun i _ => if i = k then 1 else 0
+  -- ids: mats 0 = A, 1 = B, 2 = At (stored transpose), 3 = identity(cols), 4 = evaluated inverse, 5 = Bt (stored transpose);
+  -- vecs 0 = b, 100+k = dense e_k of size `cols`, 200+i = dense e_i of size `rows`
+  let mats0 : Nat → Option Val := fun i => if i = 0 then some Am else if i = 1 then some Bm
+      else if i = 2 then some (Val.ofFn n n fun i j => A j i)
+      else if i = 3 then some (Val.ofFn cols cols fun i j => if i = j then 1 else 0)
+      else if i = 5 then some (Val.ofFn cols rows fun i j => Bm.get j i) else none
+  let vecs0 : Nat → Option Val := fun i => if i = 0 then some Bm else if 100 ≤ i ∧ i < 200 then some (unitVal cols (i - 100))
+      else if 200 ≤ i then some (unitVal rows (i - 200)) else none
+  let env0 : Env := ⟨n, mats0, vecs0⟩
+  let needInv := form == 'x' || form == 'y'
+  let ainv ← (if needInv then (evalE env0 (.inv (.mat 0) t)).map some else some none : Option (Option Val))
+  let env : Env := ⟨n, fun i => if i = 4 then ainv else mats0 i, vecs0⟩
+  let A' := E.mat 0; let B' := E.mat 1; let At := E.mat 2; let I' := E.mat 3; let Ai := E.mat 4; let Bt := E.mat 5; let b' := E.vec 0
+  let invT := transOpt R (.inv At (transposedTagH t))          -- trans(inv(At, tag^T))
+  let flatV (v : Val) : List Rat := flat v.rows v.cols fun i j => v.get i j
+  if isVec then
+    let e : Option E :=
+      if form == 's' || form == 'a' || form == 'k' then some (.vsolve A' b' t left)
+      else if form == 'e' then some (.vsolve (transOpt R At) b' t left)
+      else if form == 'i' || form == 'b' then some (if left then mvprodOpt R (.inv A' t) b' else vmprodOpt R b' (.inv A' t))
+      else if form == 'u' then some (if left then mvprodOpt R invT b' else vmprodOpt R b' invT)
+      else if needInv then some (if left then mvprodOpt R Ai b' else vmprodOpt R b' Ai)
+      else none
+    let v ← evalE env (← e)
+    pure (flatV v)
+  else
+    let ms := E.msolve A' B' t left
+    let ip := if left then mmprodOpt R (.inv A' t) B' else mmprodOpt R B' (.inv A' t)
+    let whole (e : E) : Option (List Rat) := do let v ← evalE env e; pure (flatV v)
+    let byRows (f : Nat → E) : Option (List Rat) := do
+      let mut out : List Rat := []
+      for i in [0:rows] do
+        let v ← evalE env (f i)
+        out := out ++ (List.range cols).map fun k => v.get k 0
+      pure out
+    let byCols (f : Nat → E) : Option (List Rat) := do
+      let mut colsV : Array Val := #[]
+      for k in [0:cols] do
+        colsV := colsV.push (← evalE env (f k))
+      pure (flat rows cols fun i k => (colsV.getD k ⟨0, 0, #[]⟩).get i 0)
+    if form == 's' || form == 'a' || form == 'k' then whole ms
+    else if form == 'i' || form == 'b' then whole ip
+    else if form == 'e' then whole (.msolve (transOpt R At) (transOpt R Bt) t left)
+    else if needInv then whole (if left then mmprodOpt R Ai B' else mmprodOpt R B' Ai)
+    else if form == 'u' then whole (if left then mmprodOpt R invT B' else mmprodOpt R B' invT)
+    else if form == 'm' then whole (mmprodOpt R ms I')
+    else if form == 'n' then whole (mmprodOpt R ip I')
+    else if form == 't' then do
+      let v ← evalE env (transOpt R ms)
+      pure (flat rows cols fun i j => v.get j i)
+    else if form == 'r' then byRows fun i => rowOpt R ms i
+    else if form == 'j' then byRows fun i => rowOpt R ip i
+    else if form == 'l' then byRows fun i => vmprodOpt R (.vec (200 + i)) ms
+    else if form == 'p' then byCols fun k => mvprodOpt R ms (.vec (100 + k))
+    else if form == 'q' then byCols fun k => mvprodOpt R ip (.vec (100 + k))
+    else if form == 'c' then byCols fun k => colOpt R ms k
+    else none
+
+/-- `cg` (= `conjugate_gradient(1e-12, 0)`) or `cg:<eps>:<maxit>` -/
+def parseCgTag (tag : String) : Option (Rat × Nat) :=
+  if tag == "cg" then some (1 / 1000000000000, 0) else
+  match tag.splitOn ":" with
+  | ["cg", e, m] => do
+    let eps ← parseNum e
+    let k ← m.toNat?
+    if eps ≤ 0 then none else some (eps, k)
+  | _ => none
+
 def showRes : Res → String
   | .skip => "skip"
   | .exc w => "exc " ++ w
@@ -236,7 +393,7 @@ def showRes : Res → String
 /-- the forms in which the harness writes / consumes the solve expression; all denote the same `X`
 (`r j p q m n`, and `t c l` where the transpose rewrite compiles: lazily consumed matrix solves, matrix right-hand sides only) -/
 def formKnown (form : Char) (isVec : Bool) : Bool :=
-  "siabexy".toList.contains form || (!isVec && "rjpqmntcl".toList.contains form)
+  "siabexyku".toList.contains form || (!isVec && "rjpqmntcl".toList.contains form)
 
 def opSolve : P String := do
   let tag ← word
@@ -252,6 +409,16 @@ def opSolve : P String := do
   let m := if isVec then 1 else m0
   let Bv ← nums (n * m)
   done
+  if tag.startsWith "cg" then
+    match parseCgTag tag with
+    | none => failure
+    | some (eps, maxit) =>
+      -- exact rational conjugate gradient: affordable for small systems, or a few passes on moderate ones
+      if !(n ≤ 10 || (maxit != 0 && maxit ≤ 3 && n ≤ 40)) then pure "skip" else
+      match cgSolve (.cg eps maxit) left isVec form n m A Bv with
+      | none => pure "skip"
+      | some vals => pure ("ok approx" ++ showVals vals)
+  else
   pure (showRes (solveCore tag left isVec n m A Bv))
 
 /-- `decomp`: one decomposition object, `q` solve requests; the model of every request is the
